@@ -8,9 +8,10 @@
   histories vs. the flattened image).
 -/
 import ClairModel.Proofs.Coalesce
+import ClairModel.Proofs.LayerFS
 
 namespace ClairModel.Props.C01
-open ClairModel ClairModel.Coalesce
+open ClairModel ClairModel.Coalesce ClairModel.LayerFS
 
 /-! ## Part 1 — the finished report is well-formed (all artifact lists) -/
 
@@ -137,42 +138,8 @@ theorem linux_newest_db_wins (arts : List Layer) (r : Report) (h : linuxCoalesce
 
 /-- `lastMention` really is the newest mentioning layer: nothing after it mentions `d`. -/
 theorem lastMention_is_newest (d : String) (arts : List Layer) (a : Layer) (h : lastMention d arts = some a) :
-    ∃ pre post, arts = pre ++ a :: post ∧ mentions d a = true ∧ ∀ b ∈ post, mentions d b = false := by
-  induction arts with
-  | nil => simp [lastMention] at h
-  | cons b rest ih =>
-    simp only [lastMention] at h
-    cases hr : lastMention d rest with
-    | some x =>
-      simp only [hr, Option.some.injEq] at h; subst h
-      obtain ⟨pre, post, h1, h2, h3⟩ := ih hr
-      exact ⟨b :: pre, post, by simp [h1], h2, h3⟩
-    | none =>
-      simp only [hr] at h
-      by_cases hm : mentions d b = true
-      · simp only [hm, if_true, Option.some.injEq] at h; subst h
-        refine ⟨[], rest, rfl, hm, ?_⟩
-        intro c hc
-        cases hmc : mentions d c with
-        | false => rfl
-        | true =>
-          -- a mentioning layer in `rest` would have been found
-          exfalso
-          have : ∀ (l : List Layer), c ∈ l → lastMention d l ≠ none := by
-            intro l
-            induction l with
-            | nil => intro hc; simp at hc
-            | cons x l ihl =>
-              intro hc
-              simp only [lastMention]
-              cases hl : lastMention d l with
-              | some y => simp
-              | none =>
-                rcases List.mem_cons.1 hc with hc | hc
-                · subst hc; simp [hmc]
-                · exact absurd hl (ihl hc)
-          exact this rest hc hr
-      · simp [hm] at h
+    ∃ pre post, arts = pre ++ a :: post ∧ mentions d a = true ∧ ∀ b ∈ post, mentions d b = false :=
+  lastMention_newest d arts a h
 
 /-- `rhel_last_layer_wins`: the rhel coalescer reports exactly the ids found in the last
     layer that has any package ("a package survives only if still present in the last
@@ -245,5 +212,88 @@ theorem index_records_resolve (layers : List String) (ecos : List (Kind × List 
 theorem resolver_needs_environments_counterexample :
     resolve ["L0"] { pkgs := [("1", { id := "1", name := "n", version := "v", kind := "", arch := "", src := "", db := "d", fp := "" })] } = none := by
   rfl
+
+/-! ## Part 4 — index(layers) = scan(flatten(layers))
+
+  `indexModel S layers`: every layer scanned in isolation by the scanners `S` (OS package
+  databases, language package files, whiteout files), the per-ecosystem coalescers, MergeSR,
+  the whiteout resolver.  `scanImage S layers`: the same scanners on the single file system
+  `flatten layers` (OCI whiteout / opaque semantics).
+
+  Full statement (FALSE of the unchanged code, see the counterexamples below and
+  findings/C01.txt):
+
+      ∀ S layers, ∃ r, indexModel S layers = some r ∧
+        ∀ id db, reportHas r id db = imageHas S layers id db
+-/
+
+/-- `index_eq_flatten_partial`: for ALL scanners and ALL layer stacks satisfying the decidable
+    predicate `Tame` (Proofs/LayerFS.lean: no duplicate digests; a path once per layer; at most one
+    whiteout per layer; `fileIsDeleted` = OCI cover relation on the stack's paths; package files
+    hidden by whiteouts only; OS databases never hidden and never empty; no package file
+    overwritten with another package; one path per language package id; OS and language ids
+    apart) indexing succeeds and the finished report lists package `id` with package database
+    `db` exactly when the scanners find it on the flattened image. -/
+theorem index_eq_flatten_partial (S : Scanners) (layers : List FSLayer) (ht : Tame S layers) :
+    ∃ r, indexModel S layers = some r ∧ ∀ id db, reportHas r id db = imageHas S layers id db := by
+  obtain ⟨r, hr, h⟩ := index_eq_flatten ht
+  refine ⟨r, hr, fun id db => ?_⟩
+  have := h id db
+  rw [← reportHas_iff, ← imageHas_iff] at this
+  cases h1 : reportHas r id db <;> cases h2 : imageHas S layers id db <;> simp_all
+
+set_option maxRecDepth 10000 in
+/-- The hypothesis is satisfiable on a non-trivial history: install (OS database, python and
+    nodejs packages), upgrade with the old files whited out, removal, an unrelated file. -/
+theorem tame_example : Tame Ex.S0 Ex.tameStack := by decide
+
+set_option maxRecDepth 10000 in
+example : imageHas Ex.S0 Ex.tameStack "requests-2" "lang:site/requests-2.dist-info/METADATA" = true ∧
+    imageHas Ex.S0 Ex.tameStack "requests-1" "lang:site/requests-1.dist-info/METADATA" = false ∧
+    imageHas Ex.S0 Ex.tameStack "curl-7" Ex.dpkgDB = true ∧
+    imageHas Ex.S0 Ex.tameStack "left-pad-1" "lang:app/node_modules/left-pad/package.json" = false := by decide
+
+set_option maxRecDepth 10000 in
+/-- clause `oneWhiteout` (finding whiteout-one-per-layer): two whiteouts in one layer, only the
+    last reaches the resolver; `requests-1` stays reported although its file is deleted. -/
+theorem index_eq_flatten_two_whiteouts_counterexample :
+    Ex.reportedNotInImage Ex.S0 Ex.twoWhiteouts "requests-1" "lang:a/x" := by decide
+
+set_option maxRecDepth 10000 in
+/-- clause `noOverwrite` (finding lang-overwrite-in-place): the overwritten package stays reported. -/
+theorem index_eq_flatten_overwrite_counterexample :
+    Ex.reportedNotInImage Ex.S0 Ex.overwritten "left-pad-1" "lang:app/node_modules/left-pad/package.json" := by decide
+
+set_option maxRecDepth 10000 in
+/-- clause `onePath` (finding lang-same-package-two-paths): one environment per id survives. -/
+theorem index_eq_flatten_two_paths_counterexample :
+    Ex.inImageNotReported Ex.S0 Ex.twoPaths "requests-1" "lang:a/m" := by decide
+
+set_option maxRecDepth 10000 in
+/-- clause `osDb` (finding os-db-removed): the database is whited out, its packages stay reported. -/
+theorem index_eq_flatten_db_removed_counterexample :
+    Ex.reportedNotInImage Ex.S0 Ex.dbRemoved "bash-1" Ex.dpkgDB := by decide
+
+set_option maxRecDepth 10000 in
+/-- clause `osDb` (finding os-db-emptied): the newest database lists nothing, the old packages stay reported. -/
+theorem index_eq_flatten_db_emptied_counterexample :
+    Ex.reportedNotInImage Ex.S0 Ex.dbEmptied "bash-1" Ex.dpkgDB := by decide
+
+set_option maxRecDepth 10000 in
+/-- clause `disjoint`: an OS package and a language package under one id — deleting the language
+    file drops the OS package from the report too. -/
+theorem index_eq_flatten_shared_id_counterexample :
+    Ex.inImageNotReported Ex.S0 Ex.sharedId "X" Ex.dpkgDB := by decide
+
+set_option maxRecDepth 10000 in
+/-- clause `delSpec`: `fileIsDeleted` ignores an opaque marker at the root of a layer. -/
+theorem index_eq_flatten_root_opaque_counterexample :
+    Ex.reportedNotInImage Ex.S0 Ex.rootOpaque "requests-1" "lang:a/x" := by decide
+
+set_option maxRecDepth 10000 in
+/-- clause `hidesSpec`: a regular file replacing the package's directory deletes the package
+    without any whiteout; the resolver only looks at whiteouts. -/
+theorem index_eq_flatten_dir_replaced_counterexample :
+    Ex.reportedNotInImage Ex.S0 Ex.dirReplaced "requests-1" "lang:a/x" := by decide
 
 end ClairModel.Props.C01
